@@ -16,7 +16,7 @@ from vlib import harness
 
 ID = "C18"
 LEVEL = "exploration"
-RULE = ("a case is one store of 0-12 entries (real cached calls of 1-2 functions returning bytes of chosen sizes, plus empty "
+RULE = ("a case is one store of 0-12 entries (real cached calls of 1-3 functions returning bytes of chosen sizes - in a third of the stores one of them is defined inside another cached function, so its entries live below that function's directory - plus empty "
         "32-hex 'zero-size' entries), access times set with os.utime (ties, increasing, seconds to months), and one "
         "(bytes_limit, items_limit, age_limit) triple from {None, 0, exact fit, fit-1, half, '1K', '0.5K', huge} x "
         "{None, 0, 1, n-1, n, n+1} x {None, 0s, between two entries, older than all, a fractional limit 0.45 s away from one entry}; distinct_nontrivial counts distinct "
@@ -42,6 +42,21 @@ def blob(i, n):
 def blob2(i, n):
     CALLS.append(("blob2", i, n))
     return b"y" * n
+
+
+def blob3(i, n, _nested=False):
+    """cached itself AND the place where another cached function is defined: the nested function's entries live below
+    blob3's own directory (<module>/blob3/<locals>/nested/<id>), next to blob3's entries"""
+    def nested(i, n):
+        CALLS.append(("nested", i, n))
+        return b"n" * n
+    if _nested:
+        return nested
+    CALLS.append(("blob3", i, n))
+    return b"z" * n
+
+
+nested = blob3(0, 0, _nested=True)
 
 
 def cases(tier, seed):
@@ -93,13 +108,18 @@ def run_case(case, ctx):
         with warnings.catch_warnings():
             warnings.simplefilter("ignore")
             mem = Memory(d, verbose=0, compress=rng.choice([False, False, True]))
-            fs = {"blob": mem.cache(blob), "blob2": mem.cache(blob2)}
+            fs = {"blob": mem.cache(blob), "blob2": mem.cache(blob2), "blob3": mem.cache(blob3), "nested": mem.cache(nested)}
+        if case["i"] % 3 == 0:
+            # the enclosing function records its code first: its first call on a directory that already holds the
+            # nested function's entries would (legitimately) wipe that directory
+            fs["blob3"](-1, 0)
+            shutil.rmtree(os.path.join(mem.store_backend.location, fs["blob3"].func_id, fs["blob3"]._get_args_id(-1, 0)))
         n = rng.choice([0, 1, 2, 3, 4, 5, 6, 8, 12])
         sizes = [rng.choice([0, 10, 1000, 1000, 5000, 5000, 200000 if rng.random() < 0.1 else 37]) for _ in range(n)]
         del CALLS[:]
         keys = []
         for i in range(n):
-            fn = rng.choice(["blob", "blob", "blob2"])
+            fn = rng.choice(["blob", "blob", "blob2"] if case["i"] % 3 else ["blob", "blob3", "nested", "nested"])
             fs[fn](i, sizes[i])
             keys.append((fn, i, sizes[i]))
         assert len(CALLS) == n
@@ -231,7 +251,7 @@ def run_case(case, ctx):
             except Exception as e:  # noqa
                 ctx.violation("entry-unusable-after-reduce", f"{'survivor' if p in S else 'evicted'} entry raises {type(e).__name__}: {e}", desc)
                 return
-            want = (b"x" if fn == "blob" else b"y") * sz
+            want = {"blob": b"x", "blob2": b"y", "blob3": b"z", "nested": b"n"}[fn] * sz
             if v != want:
                 ctx.violation("wrong-value-after-reduce", f"entry {fn}({i},{sz}) returns {v[:20]!r}[{len(v)}]", desc)
                 return
